@@ -409,8 +409,12 @@ def rule_optimiser(ctx):
                 if norm(e) != norm(opt_calls[0].args[0]):
                     chain_ok = False
     cof = prog.func(FS + "::_check_object_from_file")
-    t = norm(cof.node)
-    res_ok = pmall(t, "$o = parse(", "$r = next(apply_common_filters([$o], %s), None)" % cof.params[0], "return $r") is not None
+    # whatever produced the object (parse, dict_to_stix2, ...): what is returned is what the complete query lets through
+    flc = flow_of(cof)
+    acf = [c for c in body_walk(cof.node) if isinstance(c, ast.Call) and call_simple_name(c) == "apply_common_filters"
+           and len(c.args) >= 2 and norm(c.args[1]) == cof.params[0]]
+    rets_c = [r for r in returns_of(cof) if r.value is not None]
+    res_ok = bool(acf) and bool(rets_c) and all("apply_common_filters" in flc.prov(r.value).calls for r in rets_c)
     run.check(ok and chain_ok and res_ok, R, key(rel, "filesystem-search", "full-query-reapplied"),
               "the optimiser's result does more than prune directories: the complete query no longer reaches every file read",
               file=rel, line=q.node.lineno, function="FileSystemSource.query", expected="same `query` passed down and applied by "
